@@ -58,6 +58,12 @@ MtCheck(e) ==
   \cup When(e.seen < e.rep, {"concurrent callers: a refresh reported a base time, the base time read afterwards is older"})
   \cup When(e.seen < mtlast[e.t] \/ e.seen < base, {"concurrent callers: the base time decreased"})
 
+\* C18 at the module level: get_base_time_unlocked is a wait-free read, whatever `now` it is given - it never goes through
+\* the (blocking) update path, so it never changes the base time
+Check18(e) ==
+  When(e.ev = "get_unlocked" /\ e.err = "" /\ e.panic = "" /\ e.base # base,
+       {"get_base_time_unlocked changed the base time: it went through the blocking update path"})
+
 Next == /\ l <= Len(Rec) /\ l' = l + 1
         /\ LET e == Rec[l] IN
            IF e.ev = "reset" THEN trusted' = {} /\ base' = 0 /\ mtlast' = NoThreads /\ UNCHANGED <<viol, devOf, drift>>      \* a new process
@@ -68,7 +74,8 @@ Next == /\ l <= Len(Rec) /\ l' = l + 1
                 /\ UNCHANGED <<trusted, base, devOf, drift>>
            ELSE /\ mtlast' = NoThreads
                 /\ drift' = (IF Cardinality(drift) < 20 THEN drift \cup PolicyDrift(e) ELSE drift)
-                /\ viol' = CapViol(viol, {[run |-> e.run, line |-> l, prop |-> "C19", what |-> w] : w \in Check(e)})
+                /\ viol' = CapViol(viol, {[run |-> e.run, line |-> l, prop |-> "C19", what |-> w] : w \in Check(e)}
+                                         \cup {[run |-> e.run, line |-> l, prop |-> "C18", what |-> w] : w \in Check18(e)})
                 /\ trusted' = IF e.ev = "add" /\ e.err = "" /\ e.panic = "" /\ "f" \in DOMAIN e
                               THEN trusted \cup {FileRec(e, e.f).dev} ELSE trusted
                 /\ base' = e.base
